@@ -103,7 +103,7 @@ def run_path(I, st, c, fi, res):
             I.write_field(st, ov, ln.attr, fty, ev)
     if outcome == "normal":
         res.outcomes["normal"] = res.outcomes.get("normal", 0) + 1
-        rt = calls.return_type(I, st, fi, c)
+        rt = calls.return_type(I, st, fi, c, env.get("self"))
         if rt is not None and rt not in ("Any", "NoneT"):
             result = calls.adapt(I, st, result, rt)
         env2 = dict(env)
@@ -247,7 +247,7 @@ def run_refinement_path(I, st, c, fi, bc, bfi, res):
     st.old_heap, st.old_alloc = pre_heap, pre_alloc
     if k == 0:
         res.outcomes["normal"] = res.outcomes.get("normal", 0) + 1
-        rt = calls.return_type(I, st, fi, c)
+        rt = calls.return_type(I, st, fi, c, env.get("self"))
         if rt in (None, "NoneT"):
             result = NONE
         elif rt == "Any":
